@@ -184,8 +184,9 @@ def input_sets(rng, thorough, quick_small=60, small_maxn=4):
         must = [s for s in small if len(s) == 1][:3]
         small = must + rng.sample(small, quick_small)
     else:
-        # exhaustive up to 3 members (469 sets), 400 sampled sets of 4 members
-        small = [s for s in small if len(s) <= 3] + rng.sample([s for s in small if len(s) == 4], 400)
+        # every set of one or two members (105), 150 sampled sets of three and 100 of four members
+        small = ([s for s in small if len(s) <= 2] + rng.sample([s for s in small if len(s) == 3], 150)
+                 + rng.sample([s for s in small if len(s) == 4], 100))
     out = [("s%d" % i, S, True) for i, S in enumerate(small)]
     sm3 = [list(c) for c in G.small_sets(2, alpha=(0x61, 0x62, 0xFE), maxlen=2)]
     sm3 = sm3 if thorough else rng.sample(sm3, 10)
@@ -223,6 +224,11 @@ def make_programs(pid, tier, rng):
                 k = si % len(grid)
                 grid = grid[k:] + grid[:k]
                 grid = grid[:2] if small else grid[:1]
+            elif thorough and pid != "C12":
+                # the thorough tier: the rich grid, up to four vectors per small input and three per shape, rotating
+                k = si % len(grid)
+                grid = grid[k:] + grid[:k]
+                grid = grid[:4] if small else grid[:3]
             if pid == "C12" and kind in G.FC:
                 grid = grid + [G.P(bucket=0), G.P(bucket=1)]          # clamp to 2
             for par in grid:
